@@ -47,11 +47,19 @@ func TestVerifC18LegacyRewriteSignatures(t *testing.T) {
 	defer stats.Flush()
 	rapid.Check(t, func(t *rapid.T) {
 		m := mgen.Gen(t, mgen.GenOpts{Signed: true, MaxStreams: 3, MaxBlocks: 4, MaxFiles: 4})
-		decoLabels := fedgen.Decorate(t, m, rapid.IntRange(0, 3).Draw(t, "allowDoubleA") == 0)
-		if rapid.IntRange(0, 9).Draw(t, "signAll") < 6 {
+		allowDoubleA := rapid.IntRange(0, 3).Draw(t, "allowDoubleA") == 0
+		decoLabels := fedgen.Decorate(t, m, allowDoubleA)
+		signAll := rapid.IntRange(0, 9).Draw(t, "signAll") < 6
+		if signAll {
 			// the usual real-world shape: every locator signed by the remote
 			fedgen.SignAll(t, m)
 			decoLabels = append(decoLabels, "all-locators-signed")
+		}
+		var big fedgen.BigInfo
+		if rapid.IntRange(0, 29).Draw(t, "big")%15 == 7 {
+			// 1-3 stream lines of 50-280 KiB
+			big = fedgen.Inflate(t, m, signAll)
+			decoLabels = append(decoLabels, big.Labels()...)
 		}
 		honest := m.Text()
 		other := mgen.Gen(t, mgen.GenOpts{Signed: true, MaxStreams: 2, MaxBlocks: 3, MaxFiles: 3}).Text()
@@ -112,7 +120,7 @@ func TestVerifC18LegacyRewriteSignatures(t *testing.T) {
 		resp, rerr := rewriteSignatures(clusterID, expect, c18resp(http.StatusOK, body), nil)
 
 		describe := func() string {
-			return fmt.Sprintf("cluster=%s expectHash=%q (%s; true PDH %s)\nanswer: %s (%s), portable_data_hash field %q (%s)\nsent: %q", clusterID, expect, reqKind, truePDH, ansKind, detail, field, fieldKind, sent)
+			return fmt.Sprintf("cluster=%s expectHash=%q (%s; true PDH %s)\nanswer: %s (%s), portable_data_hash field %q (%s)\n%s\nsent: %q", clusterID, expect, reqKind, truePDH, ansKind, detail, field, fieldKind, big, fedgen.Abbrev(sent))
 		}
 		validSent := expect == "" || ref.PDH(sent) == expect
 		labels := append([]string{"legacy", "req:" + reqKind, "answer:" + ansKind, fieldKind}, decoLabels...)
@@ -157,18 +165,28 @@ func TestVerifC18LegacyRewriteSignatures(t *testing.T) {
 				isNorm := norm != sent &&
 					got == fedgen.RefRewrite(norm, clusterID) &&
 					(expect == "" || ref.PDH(norm) == expect)
-				if isNorm && stats.Known("c18-legacy-line-ending-normalised", fmt.Sprintf("%s: sent %q relayed %q", detail, sent, got)) {
+				if isNorm && stats.Known("c18-legacy-line-ending-normalised", fmt.Sprintf("%s: sent %q relayed %q", detail, fedgen.Abbrev(sent), fedgen.Abbrev(got))) {
 					labels = append(labels, "known:line-ending-normalised")
 				} else {
-					t.Fatalf("C18 violated (legacy rewriteSignatures): %s\nreturned: %q\n%s", strings.Join(problems, "; "), got, describe())
+					t.Fatalf("C18 violated (legacy rewriteSignatures): %s\nreturned: %q\n%s", strings.Join(problems, "; "), fedgen.Abbrev(got), describe())
 				}
 			}
 			labels = append(labels, "outcome:success")
+			if big.Streams > 0 {
+				labels = append(labels, "big:outcome:success")
+			}
 			if strings.Contains(got, "+R"+clusterID+"-") {
 				labels = append(labels, "relayed-with-rewritten-signatures")
 			}
 		} else {
 			labels = append(labels, "outcome:error")
+			// "never wins over an honest remote": as in the fan-out unit, an
+			// honest answer to exactly the request, of the shape the legacy
+			// check is known to handle (every locator singly signed), must be
+			// accepted whatever its size.
+			if ansKind == "honest" && signAll && !allowDoubleA && (byUUID || reqKind == "exact") {
+				t.Fatalf("C18 violated (legacy rewriteSignatures): the honest, fully signed answer to the request was refused: %v\n%s", rerr, describe())
+			}
 			if validSent && (ansKind == "honest" || ansKind == "tamper-sigonly") {
 				// not asserted by the property for this path; measured
 				why := "other"
@@ -189,7 +207,7 @@ func TestVerifC18LegacyRewriteSignatures(t *testing.T) {
 		}
 		stats.Case(stats.FP("legacy", sent, expect, field, clusterID), nontrivial, labels...)
 		if stats.WantSample("legacy") {
-			stats.Sample("legacy", map[string]interface{}{"expect": expect, "answer": ansKind, "detail": detail, "sent": sent, "err": fmt.Sprint(rerr)})
+			stats.Sample("legacy", map[string]interface{}{"expect": expect, "answer": ansKind, "detail": detail, "sent": fedgen.Abbrev(sent), "err": fmt.Sprint(rerr)})
 		}
 	})
 }
